@@ -3,6 +3,7 @@ import Bluebell.Peg.Eval
 import Bluebell.Gen.Grammar
 import Bluebell.Gen.Compiled
 import Bluebell.Exec
+import Bluebell.PreParse
 /-! Request dispatcher for the line-protocol driver (not part of the proof library's trusted
 statements; it only exposes the model's executable definitions). -/
 open Lean
@@ -42,6 +43,7 @@ def handle (j : Json) : Json :=
   match getStr j "op" with
   | "ping" => Json.mkObj [("ok", true)]
   | "parse" => handleParse j
+  | "preparse" => Json.mkObj [("out", Json.str (String.ofList (preParse (getNat j "n") (getStr j "text").toList)))]
   | op => Json.mkObj [("error", Json.str s!"unknown-op: {op}")]
 
 end Bluebell.Driver
